@@ -105,6 +105,37 @@ theorem next_request_served_iff (s : St) (i : Nat) (it : Item) (c : Nat) :
     (handleItem sd s i c it).2.isAgain = !endsConn sd it :=
   again_iff_not_ends sd s i c it
 
+/-- **The client's end of input is looked at only between exchanges.** The trace of a connection
+closes it exactly once, as its very last event: a client that half-closes after its last request
+still has every request it sent handled in full before the proxy reacts to the end of its input. -/
+theorem connection_closed_once_at_the_very_end (s : St) (i : Nat) (opn : List Nat) :
+    ∃ pre, run sd base s i opn items = pre ++ [Ev.closeConn] ∧ Ev.closeConn ∉ pre := by
+  have hitem : ∀ s i c it, Ev.closeConn ∉ (handleItem sd s i c it).1 := by
+    intro s i c it; item_cases it
+  have htail : ∀ opn : List Nat, Ev.closeConn ∉ opn.map Ev.unlink := by
+    intro opn h; obtain ⟨c, _, hc⟩ := List.mem_map.mp h; cases hc
+  induction items generalizing s i opn with
+  | nil => exact ⟨opn.map Ev.unlink, by simp [run], htail opn⟩
+  | cons it rest ih =>
+    simp only [run]
+    cases hn : (handleItem sd s i (base + i) it).2 with
+    | again s' =>
+      obtain ⟨pre, hp, hnp⟩ := ih s' (i + 1) (nextOpen (base + i) opn it)
+      refine ⟨(handleItem sd s i (base + i) it).1 ++ pre, by simp [hp], ?_⟩
+      intro h; rcases List.mem_append.mp h with h | h
+      · exact hitem _ _ _ _ h
+      · exact hnp h
+    | close =>
+      refine ⟨(handleItem sd s i (base + i) it).1 ++ opn.map Ev.unlink, by simp, ?_⟩
+      intro h; rcases List.mem_append.mp h with h | h
+      · exact hitem _ _ _ _ h
+      · exact htail opn h
+    | hijack =>
+      refine ⟨(handleItem sd s i (base + i) it).1 ++ opn.map Ev.unlink, by simp, ?_⟩
+      intro h; rcases List.mem_append.mp h with h | h
+      · exact hitem _ _ _ _ h
+      · exact htail opn h
+
 /-! ### Body framing: the one part of the codec that is modelled
 
 `MessageView.dechunk` transcribes net/http's chunked reader (it is compared with
